@@ -527,6 +527,7 @@ Direction B: the reference encrypts, lopdf authenticates / decrypts in memory an
         let Some(mut r) = c.case("b", i) else { continue };
         dir_b(c, &mut r, i);
     }
+    saslprep_cases(c);
     witnesses(c);
 }
 
@@ -711,16 +712,19 @@ fn dir_b(c: &mut Ctx, r: &mut Rng, idx: u64) {
     for pw in [&q.user, &owner.as_bytes().to_vec()] {
         if !matches!(refimpl::decrypt_document(&enc, pw, true, false), Ok((ref dd, _)) if c05::docs_same_mod_length(&orig, dd).is_ok()) { c.oracle_fail("reference-self-roundtrip", "", case.clone()); return; }
     }
-    // the model of lopdf's code on the same input (user password): correspondence with the real decrypt
+    // the model of lopdf's code on the same input: correspondence with the real decrypt (revision 6 within a budget:
+    // the model runs the full Algorithm 2.B in Lean)
+    let full_model_case = c05::r6_model_budget(c, q.r, "b.r6_model_cases");
     let run = |c: &mut Ctx, doc: &Document, pw: &str, label: &str| -> Result<Document, String> {
         let mut dd = doc.clone();
         let res = guard(|| dd.decrypt(pw));
         let pw_b = c05::sanitize(doc, pw).unwrap_or_default();
+        let full_model = full_model_case;
         let tbl = c05::h2b_table(q.r, &d.o, &d.u, &[pw_b.clone()]);
         let req = format!("c5_decdoc {} {} {}", c05::show_doc(doc), hex_tok(&pw_b), tbl);
         match res {
-            Ok(Ok(())) => { c.corr(req, format!("ok {}", c05::show_doc(&dd))); Ok(dd) }
-            Ok(Err(e)) => { let cls = c05::err_class(&e); c.corr(req, format!("err {}", cls)); Err(cls) }
+            Ok(Ok(())) => { if full_model { c.corr(req, format!("ok {}", c05::show_doc(&dd))); } Ok(dd) }
+            Ok(Err(e)) => { let cls = c05::err_class(&e); if full_model { c.corr(req, format!("err {}", cls)); } Err(cls) }
             Err((site, msg)) => { c.oracle_fail(&format!("panic@{}", site), &msg, json!({"label": label})); Err("panic".into()) }
         }
     };
@@ -773,6 +777,51 @@ fn dir_b(c: &mut Ctx, r: &mut Rng, idx: u64) {
         }
     }
     c.sample(json!({"direction": "B", "rev": q.r, "v": q.v, "bits": q.key_bits}));
+}
+
+
+/// R5/R6 password preparation: SASLprep (RFC 4013) is an external crate (`stringprep`) that the model
+/// and the main streams take as given (both sides are fed lopdf's own `sanitize_password` result).
+/// This stream checks the WIRING against the RFC's own examples (RFC 4013 §3) with expectations written
+/// here by hand: the reference must open lopdf's document with the RFC's output bytes.
+fn saslprep_cases(c: &mut Ctx) {
+    // (input, expected output or None = prohibited)
+    let table: [(&str, Option<&str>); 9] = [
+        ("I\u{00AD}X", Some("IX")),          // SOFT HYPHEN mapped to nothing
+        ("user", Some("user")),              // no transformation
+        ("USER", Some("USER")),              // case preserved
+        ("\u{00AA}", Some("a")),             // NFKC: FEMININE ORDINAL INDICATOR -> a
+        ("\u{2168}", Some("IX")),            // NFKC: ROMAN NUMERAL NINE -> IX
+        ("a\u{00A0}b", Some("a b")),         // non-ASCII space mapped to SPACE
+        ("\u{0007}", None),                  // prohibited: control character
+        ("\u{0627}\u{0031}", None),          // bidi check fails
+        ("p\u{00E4}ss", Some("p\u{00E4}ss")), // already NFKC
+    ];
+    for (i, (input, expect)) in table.iter().enumerate() {
+        let Some(_r) = c.case("saslprep", i as u64) else { continue };
+        for ver in [Ver::R5, Ver::V5] {
+            let cfg = Config { ver: ver.clone(), encrypt_metadata: true, filters: vec![(b"StdCF".to_vec(), b'B')], stmf: b"StdCF".to_vec(), strf: b"StdCF".to_vec(),
+                file_key: (0..32).collect(), owner: "owner".into(), user: input.to_string(), perms: 3900 };
+            let orig = strip_note(&wdoc());
+            let case = json!({"input": input.escape_unicode().to_string(), "expect": expect, "ver": format!("{:?}", ver)});
+            match (guard(|| cfg.make_state(&orig)), expect) {
+                (Ok(Err(_)), None) => c.count("saslprep.prohibited_rejected"),
+                (Ok(Ok(_)), None) => c.oracle_fail("saslprep-differs", "a password RFC 4013 prohibits was accepted", case),
+                (Ok(Err(e)), Some(_)) => c.oracle_fail("saslprep-differs", &format!("rejected: {}", c05::err_class(&e)), case),
+                (Ok(Ok(state)), Some(out)) => {
+                    let mut enc = orig.clone();
+                    if enc.encrypt(&state).is_err() { c.oracle_fail("encrypt-failed", "", case); continue; }
+                    match refimpl::decrypt_document(&enc, out.as_bytes(), true, false) {
+                        Ok((d, false)) if c05::docs_same_mod_length(&orig, &d).is_ok() => c.count("saslprep.reference_opens_with_rfc_output"),
+                        other => c.oracle_fail("saslprep-differs", &format!("the reference cannot open the document with the RFC 4013 output: {:?}", other.map(|x| x.1)), case.clone()),
+                    }
+                    // and lopdf accepts both spellings
+                    for pw in [*input, out] { let mut d = enc.clone(); if d.decrypt(pw).is_err() { c.oracle_fail("saslprep-differs", &format!("lopdf rejects {:?}", pw.escape_unicode().to_string()), case.clone()); } }
+                }
+                (Err((site, msg)), _) => c.oracle_fail(&format!("panic@{}", site), &msg, case),
+            }
+        }
+    }
 }
 
 // ------------------------------------------------------------------ witnesses of the registered deviations
